@@ -3,6 +3,7 @@ package main
 // Evaluation of spec expressions to SMT terms, modifies-targets, frame checks.
 
 import (
+	"regexp"
 	"fmt"
 	"go/ast"
 	"go/constant"
@@ -354,8 +355,19 @@ func (env *Env) selector(e *ESel) V {
 	for _, i := range path {
 		pre += fmt.Sprintf("f%d_", i)
 	}
-	return fc.load(env.cur, &Loc{Kind: locField, S: loc.S, Pre: pre, Ref: loc.Ref, Ty: ft})
+	lv := fc.load(env.cur, &Loc{Kind: locField, S: loc.S, Pre: pre, Ref: loc.Ref, Ty: ft})
+	if isSlice(ft) && !fc.dry && !boundVarRe.MatchString(loc.Ref) && (os.Getenv("GOVC_SPECWF") != "" || (fc.c != nil && fc.c.SliceWF)) {
+		// a slice header read from the heap satisfies its type invariant (0 <= len <= cap, nil has no capacity)
+		w := fc.wfAc(lv, env.cur.ac)
+		if k := "specwf:" + fc.reach + ":" + w; !fc.declared[k] {
+			fc.declared[k] = true
+			fc.assume(w)
+		}
+	}
+	return lv
 }
+
+var boundVarRe = regexp.MustCompile(`\|q\d+_`)
 
 // unify brings an untyped constant / nil to the type of the other operand.
 func (env *Env) unify(a, b V) (V, V) {
@@ -755,6 +767,14 @@ func (env *Env) callExpr(e *ECall) V {
 		argc(2)
 		a, b := env.eval(e.Args[0]), env.eval(e.Args[1])
 		return boolV(and(eq(a.T[0], b.T[0]), not(eq(a.T[0], "0")), eq(a.T[1], b.T[1]), sx("bvsle", a.T[2], b.T[3])))
+	case "isptr":
+		// isptr(x): the dynamic type of the interface value x is a pointer (or map) type, so x's identity is an allocation id
+		argc(1)
+		v := env.eval(e.Args[0])
+		if !isIface(v.Ty) {
+			panic(specErr("isptr needs an interface value"))
+		}
+		return boolV(sx("isptrtag", v.T[0]))
 	case "grown":
 		// grown(a, b): a is what appending to b yields: b's array with b's capacity and at least b's length, or a newly
 		// allocated array
@@ -864,8 +884,13 @@ func (env *Env) callExpr(e *ECall) V {
 		}
 		keys, srts, id, rt := env.ghostKeys(g, o)
 		out := V{Ty: rt, Mem: g.Mem}
+		rcs := fc.e.comps(rt)
 		for k := range keys {
 			arr := fc.heapGet(env.cur, keys[k], fieldSort(srts[k]))
+			if k < len(rcs) && rcs[k].Ref {
+				// entry state: ghost values of existing objects name existing objects only
+				fc.refBound(arr, false)
+			}
 			out.T = append(out.T, sx("select", arr, id))
 		}
 		if isSlice(rt) && !strings.Contains(strings.Join(out.T, " "), "|q") {
@@ -1530,6 +1555,12 @@ func (fc *FnCtx) readKeys(f *SpecFun) []readKey {
 				out = append(out, readKey{"M:ref.", memSort(sInt)})
 			case "M:bv8":
 				out = append(out, readKey{"M:bv8.", memSort(sBV(8))})
+			case "M:bv16":
+				out = append(out, readKey{"M:bv16.", memSort(sBV(16))})
+			case "M:bv32":
+				out = append(out, readKey{"M:bv32.", memSort(sBV(32))})
+			case "M:bv64":
+				out = append(out, readKey{"M:bv64.", memSort(sBV(64))})
 			default:
 				panic(specErr("hfun %s: unknown memory class %s", f.Name, r))
 			}
